@@ -31,19 +31,22 @@ class Arr:
     """Symbolic array.  dims: tuple of labels (None = broadcast axis).  mask: pending boolean
     selection (Poly) from a masked read.  unit: unit tag (Poly) or None when not tracked.
     The value semantics of a Quantity is "the physical quantity" (value * unit atoms)."""
-    __slots__ = ('dims', 'poly', 'mask', 'unit', 'fresh')
+    __slots__ = ('dims', 'poly', 'mask', 'unit', 'fresh', 'dt')
 
-    def __init__(self, dims, poly, mask=None, unit=None, fresh=False):
+    def __init__(self, dims, poly, mask=None, unit=None, fresh=False, dt=None):
         self.dims = tuple(dims)
         self.poly = poly if isinstance(poly, Poly) else Poly.const(poly)
         self.mask, self.unit, self.fresh = mask, unit, fresh
+        # element type, tracked only where it is known: 'f' real-valued, 'i' integer, 'inherit' = a buffer created with the
+        # element type of a caller-supplied array (zeros_like / copy), None = not tracked
+        self.dt = dt
 
     @property
     def ndim(self):
         return len(self.dims)
 
     def with_(self, **kw):
-        a = Arr(self.dims, self.poly, self.mask, self.unit)
+        a = Arr(self.dims, self.poly, self.mask, self.unit, dt=self.dt)
         for k, v in kw.items():
             setattr(a, k, v)
         return a
@@ -703,8 +706,12 @@ class Interp:
             vp = alg.mk_fn('at', B(lab, vp), P(alg.array_fn('invperm', lab, ip)))
         if old.unit is not None and v.unit is not None and not (old.unit == v.unit) and not (vp.is_const()):
             pass    # astropy converts on assignment; value semantics unchanged
+        if old.dt in ('inherit', 'i') and v.dt == 'f':
+            self.findings.append(Finding('dtype', 'a real-valued result is stored into %s, %s: the values are truncated to integers%s'
+                                         % (up(node), 'a buffer created with the element type of a caller-supplied array' if old.dt == 'inherit' else 'an integer buffer',
+                                            ' whenever the caller supplies integers' if old.dt == 'inherit' else ''), t, mod.path))
         newp = old.poly + cond * (vp - old.poly)
-        newv = Arr(old.dims, newp, old.mask, old.unit)
+        newv = Arr(old.dims, newp, old.mask, old.unit, dt=old.dt)
         setv(newv)
         _replace_aliases(env, old, newv)      # an in-place store is seen through every view of the buffer
 
@@ -859,6 +866,15 @@ class Interp:
 
     # ---- arithmetic
     def binop(self, op, a, b, node):
+        r = self._binop(op, a, b, node)
+        if isinstance(r, Arr) and r.dt is None:
+            def real(v):
+                return (isinstance(v, Arr) and v.dt == 'f') or (isinstance(v, float) and v != int(v) if isinstance(v, float) and v == v and abs(v) != float('inf') else False)
+            if isinstance(op, ast.Div) or real(a) or real(b):
+                r.dt = 'f'
+        return r
+
+    def _binop(self, op, a, b, node):
         if isinstance(a, Unk):
             return a
         if isinstance(b, Unk):
@@ -1354,16 +1370,16 @@ class Interp:
                 if isinstance(x, Unk):
                     return x
                 if last == 'log10':
-                    return x.with_(poly=alg.log10(x.poly), unit=None)
+                    return x.with_(poly=alg.log10(x.poly), unit=None, dt='f')
                 if last == 'log':
-                    return x.with_(poly=alg.ln(x.poly), unit=None)
+                    return x.with_(poly=alg.ln(x.poly), unit=None, dt='f')
                 if last in ('abs', 'absolute'):
                     return x.with_(poly=alg.mk_fn('abs', P(x.poly)))
                 if last == 'sqrt':
-                    return x.with_(poly=x.poly.pow(Fraction(1, 2)), unit=_upow(x.unit, Fraction(1, 2)))
+                    return x.with_(poly=x.poly.pow(Fraction(1, 2)), unit=_upow(x.unit, Fraction(1, 2)), dt='f')
                 if last in ('isinf', 'isnan'):
-                    return x.with_(poly=alg.mk_ind(last, x.poly), unit=None)
-                return x.with_(poly=alg.mk_fn(last, P(x.poly)))
+                    return x.with_(poly=alg.mk_ind(last, x.poly), unit=None, dt=None)
+                return x.with_(poly=alg.mk_fn(last, P(x.poly)), dt='f' if last == 'exp' else x.dt)
             if last in ('isin', 'in1d') and len(args) == 2:
                 a, b = self._as_arr(args[0]), self._as_arr(args[1])
                 if isinstance(a, Arr) and isinstance(b, Arr) and b.ndim == 1:
@@ -1378,12 +1394,13 @@ class Interp:
             if last in ('zeros', 'ones', 'empty'):
                 sh = args[0]
                 c = 1 if last == 'ones' else 0
+                dt = _dtype_kind(kw.get('dtype', args[1] if len(args) > 1 else None), 'f')
                 if isinstance(sh, Shape):
-                    return Arr(sh.dims, num(c), unit=num(1), fresh=True)
+                    return Arr(sh.dims, num(c), unit=num(1), fresh=True, dt=dt)
                 if isinstance(sh, Arr) and sh.ndim == 0:
                     lab = _len_label(sh.poly)
                     if lab:
-                        return Arr((lab,), num(c), unit=num(1), fresh=True)
+                        return Arr((lab,), num(c), unit=num(1), fresh=True, dt=dt)
                 if isinstance(sh, tuple):
                     dims = []
                     for s in sh:
@@ -1394,11 +1411,14 @@ class Interp:
                         if lab is None:
                             return Unk('array shape %r' % (sh,), e)
                         dims.append(lab)
-                    return Arr(dims, num(c), unit=num(1), fresh=True)
+                    return Arr(dims, num(c), unit=num(1), fresh=True, dt=dt)
                 return Unk('array shape %r' % (sh,), e)
-            if last in ('zeros_like', 'ones_like'):
+            if last in ('zeros_like', 'ones_like', 'empty_like'):
                 x = self._as_arr(args[0])
-                return Arr(x.dims, num(1 if last == 'ones_like' else 0), unit=num(1), fresh=True) if isinstance(x, Arr) else x
+                if not isinstance(x, Arr):
+                    return x
+                dt = _dtype_kind(kw.get('dtype', args[1] if len(args) > 1 else None), x.dt if x.dt in ('f', 'i') else 'inherit')
+                return Arr(x.dims, num(1 if last == 'ones_like' else 0), unit=num(1), fresh=True, dt=dt)
             if last in ('argmin', 'argmax'):
                 x = self._as_arr(args[0])
                 ax = kw.get('axis', args[1] if len(args) > 1 else None)
@@ -1659,7 +1679,11 @@ class Interp:
                 if isinstance(uu, Unk):
                     return recv.with_(unit=None)
                 return recv.with_(unit=uu.poly)       # same physical quantity, expressed in unit uu
-            if name in ('astype', 'copy', 'view', 'squeeze', 'decompose', 'filled'):
+            if name == 'astype':
+                return recv.with_(dt=_dtype_kind(args[0] if args else kw.get('dtype'), None))
+            if name == 'copy':
+                return recv.with_(dt=recv.dt if recv.dt in ('f', 'i') else 'inherit')
+            if name in ('view', 'squeeze', 'decompose', 'filled'):
                 return recv.with_()
             if name == 'swapaxes' and len(args) == 2 and all(isinstance(a, int) for a in args):
                 d = list(recv.dims)
@@ -1882,6 +1906,23 @@ def setter_private_attr(fi):
 
 
 # ---------------------------------------------------------------- helpers
+
+def _dtype_kind(v, default):
+    """element-type class of a dtype argument: 'f' | 'i' | None (not recognised: untracked)"""
+    if v is None:
+        return default
+    name = v.name if isinstance(v, Marker) else (v if isinstance(v, str) else getattr(v, '__name__', None))
+    if isinstance(v, type):
+        name = v.__name__
+    if not isinstance(name, str):
+        return None
+    last = name.split('.')[-1]
+    if last.startswith('float') or last in ('double', 'single', 'f', 'f4', 'f8', 'd'):
+        return 'f'
+    if last.startswith('int') or last.startswith('uint') or last in ('i', 'i4', 'i8', 'bool', 'bool_'):
+        return 'i'
+    return None
+
 
 def mod_of(env):
     return env.get('__module__')
